@@ -6,18 +6,22 @@ from core import verdicts as core_verdicts
 PID = "C06"
 
 
-def _cfg(depth, ill, extra=""):
-    return ("CONSTANTS\n NP = 2\n NE = 1\n Depth = %d\n IllTyped = %s\nINIT Init\nNEXT Next\n"
+def _cfg(depth, ill, extra="", focus="all"):
+    return ("CONSTANTS\n NP = 2\n NE = 1\n Depth = %d\n IllTyped = %s\n Focus = \"%s\"\nINIT Init\nNEXT Next\n"
             "INVARIANT Sound\nINVARIANT IllRaises\nINVARIANT Emit\nPROPERTY NoMutation\nCHECK_DEADLOCK FALSE\n%s"
-            % (depth, "TRUE" if ill else "FALSE", extra))
+            % (depth, "TRUE" if ill else "FALSE", focus, extra))
 
 
-TRACE_CFG = ("CONSTANTS\n NP = 2\n NE = 1\n Depth = 0\n IllTyped = FALSE\nINIT TInit\nNEXT Step\n"
+TRACE_CFG = ("CONSTANTS\n NP = 2\n NE = 1\n Depth = 0\n IllTyped = FALSE\n Focus = \"all\"\nINIT TInit\nNEXT Step\n"
              "INVARIANT Report\nCHECK_DEADLOCK FALSE\n")
+
+
+SMALL = []     # focus programs: only meaningful with the tiny 4th scalar (variant 2)
 
 
 def programs(res, tier, wd):
     progs = []
+    del SMALL[:]
     # exhaustive: all well-typed programs of depth 2 + all ill-typed one-step programs
     r = tlc("Algebra", _cfg(2, True), wd, coverage=True)
     if r["violated"]:
@@ -27,6 +31,14 @@ def programs(res, tier, wd):
         if isinstance(rec, str):
             progs.append(json.loads(rec)["h"])
     res.exhaustive = True
+    # all depth-3 programs that build a SMALL coefficient (4th scalar squared) and push it through one more operator
+    r = tlc("Algebra", _cfg(3, False, focus="small"), wd)
+    if r["violated"]:
+        raise Machinery("Algebra.tla (focus small) violates %s" % r["violated"])
+    res.add_tlc("Algebra(depth 3, focus: small coefficients, exhaustive)", r)
+    for rec in split_prints(r["out"]):
+        if isinstance(rec, str):
+            SMALL.append(json.loads(rec)["h"])
     if tier == "thorough":
         # sampled depth-4 behaviours
         r = tlc("Algebra", _cfg(4, False), wd, workers=1,
@@ -94,7 +106,8 @@ def run(tier):
     def uses4(h):
         return any(o[x]["t"] == "sc" and o[x]["i"] == 4 for o in h for x in ("a", "b"))
     # variant 0: int scalars, 1: float scalars, 2: the 4th scalar is 2^-20 instead of 1/2 (re-encoded exactly, see drv_c06)
-    items = [dict(h=h, variant=v) for h in progs for v in (0, 1)] + [dict(h=h, variant=2) for h in progs if uses4(h)]
+    items = [dict(h=h, variant=v) for h in progs for v in (0, 1)] + [dict(h=h, variant=2) for h in progs if uses4(h)] \
+        + [dict(h=h, variant=2) for h in SMALL]
     traces = pool_map("drv_c06", "run", items)
     res.traces = len(traces)
     res.evaluations = len(traces)
